@@ -91,7 +91,8 @@ inline const std::vector<std::string>& alphabet(sm::VClass c, const FieldDef& f)
 	static const std::vector<std::string> counts { "1" };
 	static const std::vector<std::string> chars { "A", "1", "=", " ", "~" };
 	static const std::vector<std::string> bools { "Y", "N" };
-	static const std::vector<std::string> floats { "0", "1", "-1", "0.5", "400.5", "0.01", "-0.99", "123456.78", "2147483647" };
+	// the telling values first (the quick tiers use the first 2-4 indices): zero, a negative value with a zero whole part, a fraction, a negative whole number
+	static const std::vector<std::string> floats { "0", "-0.25", "400.5", "-1", "1", "0.5", "0.01", "-0.99", "123456.78", "2147483647", "-0.01" };
 	static const std::vector<std::string> strs { "A", "a=b", "x y", "~!@#$%^&*()_+", "ABCDEFGHIJKLMNOPQRSTUVWXYZabcdefghijklmn", "10=000", "34=9" };
 	static const std::vector<std::string> ts { "19700101-00:00:00.000", "20000229-23:59:59.999", "20380119-03:14:08.000", "20991231-23:59:59.999", "20240229-12:00:00", "20240301-00:00:00.000", "20240331-23:59:59.999", "20000101-00:00:00.000" };
 	static const std::vector<std::string> to { "00:00:00.000", "23:59:59.999", "12:34:56.789" };
